@@ -66,6 +66,11 @@ def app(environ, start_response):
             hdrs.append(("Content-Length", cl))
         start_response("200 OK", hdrs)
         return environ["wsgi.file_wrapper"](f)
+    elif kind == "noread":
+        body = ("noread path=%s\n" % path).encode()          # the request body is left unread
+    elif kind == "readsome":
+        got = environ["wsgi.input"].read(int(arg or "10"))
+        body = ("readsome path=%s got=%d\n" % (path, len(got))).encode()
     elif kind == "echo":
         import hashlib
         data = environ["wsgi.input"].read()
